@@ -368,6 +368,24 @@ TABLE += [
 ]
 
 
+# ---- C16 / C17 / C18 (example-based search): batch-size clamp, cardinality, flattened (batch, position) index ----
+HZ_ENV = {"batch_size": "bs", "cases_dataset.shape[0]": "n"}
+FLAT_ENV = {"search_output['indices'][:, :, 0]": "i0", "self.batch_size": "bs",
+            "search_output['indices'][:, :, 1]": "i1"}
+TABLE += [
+    ("hzBatch", "bs n", "example_based/datasets_operations/harmonize.py", None, "harmonize_datasets",
+     nth_call("min", 0), HZ_ENV, "(min bs n)"),
+    ("hzCard", "n bs", "example_based/datasets_operations/harmonize.py", None, "harmonize_datasets",
+     nth_call("ceil", 0), HZ_ENV, "(-(Int.fdiv (-n) bs))"),
+    ("hzBatchTorch", "bs n", "example_based/datasets_operations/harmonize.py", None, "harmonize_datasets",
+     nth_call("min", 1), HZ_ENV, "(min bs n)"),
+    ("hzCardTorch", "n bs", "example_based/datasets_operations/harmonize.py", None, "harmonize_datasets",
+     nth_call("ceil", 1), HZ_ENV, "(-(Int.fdiv (-n) bs))"),
+    ("flatIndex", "i0 bs i1", "example_based/prototypes.py", "Prototypes", "format_search_output",
+     assign_value("flatten_indices"), FLAT_ENV, "((i0 * bs) + i1)"),
+]
+
+
 def generate():
     status = {}
     lines = [
